@@ -102,8 +102,7 @@ def showMethods (d : DS) (ms : List Method) : String :=
 
 def showDiag (g : Diag) : String :=
   let fl := (if g.amb then ["amb"] else []) ++ (if g.fieldhide then ["fieldhide"] else []) ++
-    (if g.ptrshadow then ["ptrshadow"] else []) ++ (if g.seenstr then ["seenstr"] else []) ++
-    (if g.protoname then ["protoname"] else []) ++ (if g.pkgname then ["pkgname"] else []) ++ (if g.namedptr then ["namedptr"] else [])
+    (if g.ptrshadow then ["ptrshadow"] else []) ++ (if g.pkgname then ["pkgname"] else [])
   if fl.isEmpty then "clean" else "+".intercalate fl
 
 def sstOf (d : DS) : SSt := { st := d.st, recs := d.recs }
@@ -147,7 +146,7 @@ def step (mode : Mode) (d : DS) (k : Nat) (a : List String) : Option (DS × Stri
   | ["s", r] => do some (d, hex (d.st.get (← d.ref r)).str)
   | ["k", r] => do
     let id ← d.ref r
-    let b := if mode = .model then (d.st.get id).comparable else comparableS d.st (d.st.size + 1) id
+    let b := if mode = .model then comparableM d.st (d.st.size + 1) id else comparableS d.st (d.st.size + 1) id
     some (d, if b then "1" else "0")
   | ["q", r] => do
     let id ← d.ref r
@@ -174,9 +173,7 @@ def step (mode : Mode) (d : DS) (k : Nat) (a : List String) : Option (DS × Stri
       | .diag =>
         match dyn with
         | some v =>
-          let sameStr := (List.range d.st.size).any fun j => j != v && (d.st.get j).str == (d.st.get v).str
-          let g := showDiag (diag d.st ptrOf v)
-          some (d, if sameStr then (if g == "clean" then "dupstring" else g ++ "+dupstring") else g)
+          some (d, showDiag (diag d.st ptrOf v))
         | none => some (d, "clean")
     else if op == "E" then do
       let x ← parsePayload.parseVal d v.toList
